@@ -276,11 +276,11 @@ def check_data(acc, case, key):
 
 
 # -------------------------------------------------------------------------------------
-GROWTHS = (1.05, 1.25, 1.5, 2.0)
+GROWTHS = (1.05, 1.1, 1.25, 1.33, 1.5, 1.75, 2.0)
 
 
 def grid_cases(tier):
-    top = 26 if tier == "quick" else 44
+    top = 30 if tier == "quick" else 48
     for n in range(2, top + 1):
         for msl in (1, 2, 3, 4):
             if n < 2 * msl:
@@ -409,7 +409,7 @@ def shards(tier, seed):
 
 def bounds(tier, seed):
     return {
-        "grid": "n<=26 (quick) / 44 (thorough), msl<=4, M in {2msl..2msl+6, n//2, n-1, n, n+2}, growth in (1.05,1.25,1.5,2)",
+        "grid": "n<=30 (quick) / 48 (thorough), msl<=4, M in {2msl..2msl+6, n//2, n-1, n, n+2}, growth in (1.05,1.1,1.25,1.33,1.5,1.75,2)",
         "small_configs(n,msl,M,growth)": [list(c) for c in small_configs(tier)],
         "levels": "multiples (0,1,2,3) of the read-back threshold; 1 = exact tie with the threshold",
         "greedy-dev": "n in (8,9,10,12) quick / (7..14,16) thorough, msl<=2, <=2 non-zero intervals (pairs restricted to overlapping intervals), splits {first, middle, last}",
